@@ -126,7 +126,9 @@ fn wrong_kind_value(ir: &Ir, ty: &Type) -> Value {
 /// Build the value the resolver at `path` returns for declared type `ty`.
 /// `Err(())` = the resolver fails.
 fn build_value<'a>(ir: &Ir, wd: &Wd, path: &str, ty: &Type, top: bool, enc: Encoding) -> Result<Option<FieldValue<'a>>, ()> {
-    let ans = wd.table.get(path).cloned().unwrap_or_else(|| TableWorld::default_for(ir, ty));
+    // `<path>@<event>` overrides `<path>` while that subscription event is being resolved (see s1::Wd::event)
+    let ev = wd.event.load(std::sync::atomic::Ordering::SeqCst);
+    let ans = wd.table.get(&format!("{path}@{ev}")).or_else(|| wd.table.get(path)).cloned().unwrap_or_else(|| TableWorld::default_for(ir, ty));
     match ans {
         Ans::Err => {
             if top {
@@ -252,15 +254,26 @@ pub fn build_meta(ir: &Ir, enc: Encoding, meta: &Meta, cfg: impl FnOnce(SchemaBu
                             SubscriptionFieldFuture::new(async move {
                                 let wd = ctx.data_unchecked::<W>().clone();
                                 wd.log(format!("S:{fname}"));
-                                let n = wd.events;
-                                let items: Vec<Result<FieldValue, async_graphql::Error>> = (0..n)
-                                    .map(|_| match build_value(&ir, &wd, &fname, &fty, true, enc) {
-                                        Ok(Some(v)) => Ok(v),
-                                        Ok(None) => Ok(FieldValue::value(Value::Null)),
-                                        Err(()) => Err(async_graphql::Error::new("boom")),
-                                    })
-                                    .collect();
-                                Ok(stream::iter(items))
+                                // like S1's event_stream: event i is released by the gate `<field>@<i>` when a scheduler is present
+                                Ok(stream::unfold(0usize, move |i| {
+                                    let (ir, wd, fname, fty) = (ir.clone(), wd.clone(), fname.clone(), fty.clone());
+                                    async move {
+                                        if i >= wd.events {
+                                            return None;
+                                        }
+                                        if let Some(h) = &wd.gates {
+                                            h.gate(format!("{fname}@{i}")).await;
+                                        }
+                                        wd.log(format!("E:{fname}@{i}"));
+                                        wd.event.store(i, std::sync::atomic::Ordering::SeqCst);
+                                        let item: Result<FieldValue, async_graphql::Error> = match build_value(&ir, &wd, &fname, &fty, true, enc) {
+                                            Ok(Some(v)) => Ok(v),
+                                            Ok(None) => Ok(FieldValue::value(Value::Null)),
+                                            Err(()) => Err(async_graphql::Error::new("boom")),
+                                        };
+                                        Some((item, i + 1))
+                                    }
+                                }))
                             })
                         });
                         for a in &f.args {
